@@ -884,6 +884,7 @@ Inductive cstmt :=
 | CIfDelivery (b : list cstmt)      (* if delivery: *)
 | CIfLogLocal (b : list cstmt)      (* if (self.tub and self.tub.logLocalFailures) or not self.tub: *)
 | CLogFailure                       (* delivery.logFailure(f) *)
+| CLogFailureGuarded                (* try: delivery.logFailure(f)  except Exception: <log calls only> *)
 | CRenderLog                        (* a log call whose text is formatted eagerly from the failure (str, format of f.value ...) *)
 | CLog                              (* a log call that renders nothing of the failure or the delivery *)
 | CIfReq (b : list cstmt)           (* if reqID != 0: *)
@@ -982,6 +983,15 @@ def callfailed_stmts(stmts, alias=None):
             out.append("CIfReq " + coq_prog(callfailed_stmts(st.body, alias)))
         elif t == "delivery.logFailure(f)":
             out.append("CLogFailure")
+        elif isinstance(st, ast.Try) and [U(x) for x in st.body] == ["delivery.logFailure(f)"]:
+            # the guard must catch Exception (or everything), must not re-raise / return, and may only log (a log call that formats
+            # f / delivery eagerly again would be a second chance to raise: refused)
+            need(len(st.handlers) == 1 and (st.handlers[0].type is None or U(st.handlers[0].type) in ("Exception", "BaseException"))
+                 and not st.orelse and not st.finalbody, "callFailed: the guard around logFailure does not catch Exception: " + t[:120])
+            hb = [x for x in st.handlers[0].body if not isinstance(x, ast.Pass)]
+            need(all(is_log(x) and log_stmt(x, ("f", "delivery"), "C") == "CLog" for x in hb),
+                 "callFailed: the handler around logFailure does more than log: " + t[:160])
+            out.append("CLogFailureGuarded")
         elif t == "assert self.activeLocalCalls[reqID]":
             out.append("CAssertActive")
         elif t == "self.send(call.ErrorSlicer(reqID, f))":
